@@ -48,7 +48,7 @@ Definition viol_thin (c : acase) : bool :=                                      
 (* ---- the implementation's own event order, reconstructed from ITS trace and ITS results only ----
    IReq   : a requestUpdate CAS step (successful or not -- void function, not observable)
    IEmp v : an obj_.emplace step of tryEmplaceUpdate(v)   (the k-th ar.tryEmplace.cas step of a thread belongs to its k-th E op)
-   IGet v : the obj_ move step of a getUpdate call that returned v (the k-th ar.getUpdate.load step of a thread belongs to
+   IGet v : the obj_ move step of a getUpdate call that returned v (the k-th ar.getUpdate.cas step of a thread belongs to
             its k-th G op, whose result is the k-th get/getnone entry of the thread's results) *)
 Inductive iev := IReq | IEmp (v : Z) | IGet (v : Z).
 
@@ -65,7 +65,7 @@ Fixpoint impl_events (progs : list (list op)) (results : list (list (Z * Z))) (t
       let t := Z.to_nat tz in
       if site =? s_req_cas then IReq :: impl_events progs results r ncas nload
       else if site =? s_emp_cas then impl_events progs results r (bump ncas t) nload
-      else if site =? s_get_load then impl_events progs results r ncas (bump nload t)
+      else if site =? s_get_cas then impl_events progs results r ncas (bump nload t)
       else if site =? s_emp_emplace then
         IEmp (nth (pred (nth t ncas O)) (flat_map op_tags (nth t progs [])) 0) :: impl_events progs results r ncas nload
       else if site =? s_get_move then
@@ -90,20 +90,15 @@ Definition viol_order (c : acase) : bool :=
   let z := map (fun _ => O) (a_progs c) in
   negb (events_ok (impl_events (a_progs c) (i_results c) (i_trace c) z z) false None).
 
-(* domain of the known finding: more than one consumer thread *)
-Definition known_domain (c : acase) : bool := negb (single_consumer (a_progs c)).
-
 Definition agrees (c : acase) : bool :=
   let '(s, tr, st) := run_ar (a_fuel c) (a_keep c) (a_progs c) (a_sched c) in
   list_eqb zpair_eqb tr (i_trace c) && (status_code st =? i_status c) && (word s =? i_word c) &&
   (match obj s with Some v => i_objeng c && (i_objval c =? v) | None => negb (i_objeng c) end) &&
   list_eqb (list_eqb zpair_eqb) (map (fun th => rev (res th)) (threads s)) (i_results c).
 
-(* 0 agree & property holds; 1 differ, property holds; 2 property fails outside the known domain;
-   4 property fails inside the known domain (several consumers) exactly as the model predicts; 5 the same but the model run differs;
-   6 = 4 with a value returned twice (the registered witness kind) *)
+(* 0 agree & property holds; 1 differ, property holds; 2 the property fails on the implementation's output
+   (a value returned twice, a value nobody emplaced, an emplacement without a request step since the previous one, or a
+   delivery that does not directly follow the emplacement of that value) *)
 Definition judge_ar (c : acase) : Z :=
-  if viol_thin c then 2
-  else if viol_dup c || viol_order c then
-    (if known_domain c then (if agrees c then (if viol_dup c then 6 else 4) else 5) else 2)
+  if viol_thin c || viol_dup c || viol_order c then 2
   else if agrees c then 0 else 1.
